@@ -77,12 +77,12 @@ def scanTable : List Scan := [
   { sub := GetResponseSubspaceByReqCtx, key := GetResponseKey, kind := .byCtx }        -- responses of a batch
 ]
 
-theorem WF_setName {e : Env} (w : WF sh e) (v : Bytes) (hv : (0 : UInt8) ∉ v) : WF sh (e.setB F.serviceName v) :=
-  WF_setB w F.serviceName v hv
-theorem WF_setDenom {e : Env} (w : WF sh e) (v : Bytes) (hv : (0 : UInt8) ∉ v) : WF sh (e.setB F.denom v) :=
-  WF_setB w F.denom v hv
-theorem WF_setProvider {e : Env} (w : WF sh e) (v : Bytes) : WF sh (e.setB F.provider v) :=
-  WF_setB w F.provider v trivial
+theorem WFEnv_setName {e : Env} (w : WFEnv sh e) (v : Bytes) (hv : (0 : UInt8) ∉ v) : WFEnv sh (e.setB F.serviceName v) :=
+  WFEnv_setB w F.serviceName v hv
+theorem WFEnv_setDenom {e : Env} (w : WFEnv sh e) (v : Bytes) (hv : (0 : UInt8) ∉ v) : WFEnv sh (e.setB F.denom v) :=
+  WFEnv_setB w F.denom v hv
+theorem WFEnv_setProvider {e : Env} (w : WFEnv sh e) (v : Bytes) : WFEnv sh (e.setB F.provider v) :=
+  WFEnv_setB w F.provider v trivial
 
 /-- shape of a by-context scan -/
 def byCtxOK (sub key : List Seg) : Bool :=
@@ -133,15 +133,15 @@ def Scan.Exact (bech : Bytes → Bytes) (s : Nat → Shape) (x : Scan) : Prop :=
   match x.kind with
   | .fields =>
     if x.filtered then
-      ∀ e₁ e₂, WF s e₁ → WF s e₂ →
+      ∀ e₁ e₂, WFEnv s e₁ → WFEnv s e₂ →
         ((encode bech x.sub e₁ <+: encode bech x.key e₂ ∧
           (encode bech x.key e₂).drop (encode bech x.sub e₁).length = encode bech (x.key.drop x.sub.length) e₂)
           ↔ FieldsEq x.sub e₁ e₂)
     else
-      ∀ e₁ e₂, WF s e₁ → WF s e₂ →
+      ∀ e₁ e₂, WFEnv s e₁ → WFEnv s e₂ →
         (encode bech x.sub e₁ <+: encode bech x.key e₂ ↔ FieldsEq x.sub e₁ e₂)
   | .byCtx =>
-    ∀ e₁ e₂, WF s e₁ → WF s e₂ →
+    ∀ e₁ e₂, WFEnv s e₁ → WFEnv s e₂ →
       (encode bech x.sub e₁ <+: encode bech x.key e₂ ↔
         ∃ height index, splitReqId (e₂.b F.requestID) =
           some (e₁.b F.requestContextID, e₁.n F.batchCounter % 2 ^ 64, height, index))
